@@ -65,11 +65,11 @@ def showCfg : String :=
   s!"cfg stringNodeAppends={b rwCfg.stringNodeAppends} criSkipsComments={b lexCfg.criSkipsComments} " ++
   s!"aggrSkipsComments={b rwCfg.aggrSkipsComments} complexMergesParts={b rwCfg.complexMergesParts} complexMergesAttrErrors={b rwCfg.complexMergesAttrErrors} " ++
   s!"complexPartStrict={match rwCfg.complexPartStrict with | none => "fwd" | some x => b x} " ++
-  s!"recoveryKeepsSemicolon={b rwCfg.recoveryKeepsSemicolon} complexReportsError={b rwCfg.complexReportsError} " ++
+  s!"recoveryKeepsSemicolon={b rwCfg.recoveryKeepsSemicolon} recoveryStopsAtSemicolon={b rwCfg.recoveryStopsAtSemicolon} missingCheckEverySecond={b rwCfg.missingCheckEverySecond} rawValueStaysInRecord={b rwCfg.rawValueStaysInRecord} complexReportsError={b rwCfg.complexReportsError} " ++
   s!"skipInstanceSkipsComments={b rwCfg.skipInstanceSkipsComments} missingSemicolonReported={b rwCfg.missingSemicolonReported} fillerOnlyForDollar={b rwCfg.fillerOnlyForDollar} fillerKeepsError={b rwCfg.fillerKeepsError} errorResyncsFromStart={b rwCfg.errorResyncsFromStart} numberElemReadsNumber={b rwCfg.numberElemReadsNumber} aggrReportsMissingElement={b rwCfg.aggrReportsMissingElement} pcdEatsNextChar={b StepModel.Generated.pcdEatsNextChar} " ++
   s!"intReportsFail={b lexCfg.intReportsFail} realReportsFail={b lexCfg.realReportsFail} " ++
   s!"numberReportsFail={b lexCfg.numberReportsFail} logicalRejectsUnset={b lexCfg.logicalRejectsUnset} " ++
-  s!"binaryRejectsEmpty={b lexCfg.binaryRejectsEmpty} dollarKeepsError={b lexCfg.dollarKeepsError}"
+  s!"binaryRejectsEmpty={b lexCfg.binaryRejectsEmpty} dollarKeepsError={b lexCfg.dollarKeepsError} intNullReported={b lexCfg.intNullReported} realNullReported={b lexCfg.realNullReported} numberNullReported={b lexCfg.numberNullReported} criStopsAtSemicolon={b lexCfg.criStopsAtSemicolon}"
 
 def typeName (i : MInst Nat) : String :=
   if i.complex then "(" ++ "&".intercalate (i.parts.map (·.name)) ++ ")"
